@@ -72,4 +72,51 @@ def tailFilesCalls : List String :=
   ["followreader.New(filename,reopen,poll)", "r.Drain()",
    "out.syncReaderToBatcherWithTimeFlush(filename,r,batchSize,AutoFlushTimeout)"]
 
+/-! #### the wiring: command line → `TailFilesToChan` → `followreader.New` → constructors (`Rare.C15.Wiring`) -/
+
+/-- `New`: `poll` selects the polling reader, `reopen` is handed on unchanged -/
+def followNewBody : List String := ["ifpoll{returnNewPolling(filename,reopen)}", "returnNewNotify(filename,reopen)"]
+
+def followNewParams : List String := ["filename", "reopen", "poll"]
+
+/-- `NewNotify(filename, reopen)`: opens `filename`, a failed open is an error unless `reopen`, `ReOpen` is `reopen` -/
+def newNotifyWiring : List String :=
+  ["param:filename", "param:reopen", "filename:filename", "f:f", "ReOpen:reopen", "call:os.Open(filename)",
+   "if:err!=nil&&!reopen", "if:err!=nil", "if:f!=nil"]
+
+/-- `NewPolling(filename, reopen)`: the same, `Reopen` is `reopen`, 5 read attempts 250 ms apart -/
+def newPollingWiring : List String :=
+  ["param:filename", "param:reopen", "filename:filename", "f:f", "Reopen:reopen", "ReadAttempts:5",
+   "PollDelay:250*time.Millisecond", "call:os.Open(filename)", "if:err!=nil&&!reopen"]
+
+def tailFilesParams : List String := ["filenames", "batchSize", "batchBuffer", "reopen", "poll", "tail"]
+
+/-- `TailFilesToChan`: a goroutine that starts ONE goroutine per file name (no channel operation, no
+    semaphore between them) and closes the batch channel after `wg.Wait()` (`Rare.C15.Multi`) -/
+def tailFilesSkeleton : List String :=
+  ["go{", "range:filenames{", "call:wg.Add", "go{", "defer{", "call:wg.Done", "call:out.stopFileReading", "}",
+   "call:out.incErrors", "return", "call:out.incErrors", "call:out.startFileReading",
+   "call:out.syncReaderToBatcherWithTimeFlush", "}", "}", "call:wg.Wait", "call:out.close", "}", "return"]
+
+def tailFilesBookkeeping : List String :=
+  ["newBatcher(batchBuffer)", "wg.Add(1)", "wg.Done()", "out.stopFileReading(filename)", "out.incErrors()",
+   "out.incErrors()", "out.startFileReading(filename)", "wg.Wait()", "out.close()"]
+
+/-- `-F` implies following; `--poll` and `--tail` do not -/
+def cliFollowVars : List String :=
+  ["follow=c.Bool(\"follow\")||c.Bool(\"reopen\")", "followTail=c.Bool(\"tail\")",
+   "followReopen=c.Bool(\"reopen\")", "followPoll=c.Bool(\"poll\")"]
+
+def cliFatals : List String :=
+  ["followPoll&&!follow=>ExitCodeInvalidUsage", "followTail&&!follow=>ExitCodeInvalidUsage"]
+
+/-- the argument order at the one call site: (reopen, poll, tail) -/
+def cliBatcherCalls : List String :=
+  ["batchers.TailFilesToChan(dirwalk.GlobExpand(fileglobs,recursive),batchSize,batchBuffer,followReopen,followPoll,followTail)"]
+
+def cliBatcherConds : List String :=
+  ["followPoll&&!follow", "followTail&&!follow", "len(fileglobs)==0||fileglobs[0]==\"-\"", "follow", "follow"]
+
+def cliFollowFlags : List String := ["follow:f", "reopen:F", "poll:", "tail:t"]
+
 end Rare.Follow.Expected
